@@ -228,13 +228,20 @@ def handle (tb : Tables) (c impl : T) : String :=
               | some a =>
                 if a.2.1 then (if specOk then "repaired " ++ a.1 else "mismatch spec-bad " ++ render (.obj cur.1) ++ " errors=" ++ toString cur.2)
                 else "regress " ++ a.1 ++ (if specOk then " spec-ok" else " spec-bad")
-              | none => "mismatch " ++ (if specOk then "spec-ok " else "spec-bad ") ++ "errors=" ++ toString cur.2 ++ "/" ++ toString nerr ++ " at " ++ ((diff "" (.obj cur.1) data).getD "-")
+              | none =>
+                -- D84 (read from resolveField): `__type(name:)` also found directives (GetType falls back on the
+                -- directive table) and answered an object with a null kind for the name of a directive
+                let dirNames := S.1.dirs.map (·.name) ++ ["deprecated", "skip", "include", "go"]
+                if tb.typeLookupFindsDirectives && !specOk &&
+                   q.any (fun t => match t with | .type _ n _ => dirNames.contains n | _ => false) then "dev D84"
+                else
+                "mismatch " ++ (if specOk then "spec-ok " else "spec-bad ") ++ "errors=" ++ toString cur.2 ++ "/" ++ toString nerr ++ " at " ++ ((diff "" (.obj cur.1) data).getD "-")
           | _, _ => "bad-op")
        | _ => "bad-op")
     | _, _ => "bad-op"
   | _ => "bad-op"
 
 def flags (tb : Tables) : List (String × Bool) :=
-  (alts (curM tb)).map (fun a => (a.1, a.2.1))
+  (alts (curM tb)).map (fun a => (a.1, a.2.1)) ++ [("D84", tb.typeLookupFindsDirectives)]
 
 end Ggql.Driver.C17
